@@ -43,3 +43,12 @@ Proof.
   - split; [assumption|]. left. destruct (F3 eq_refl). auto.
   - split; [assumption|]. right. now rewrite F2.
 Qed.
+
+Lemma m_load_congr M c off off' code :
+  0 < M -> off mod M = off' mod M -> m_load M c off code = m_load M c off' code.
+Proof.
+  intros HM. revert c off off'. induction code as [|x t IH]; intros c off off' E; cbn [m_load]; [reflexivity|].
+  rewrite E. apply IH.
+  rewrite <- (N.add_mod_idemp_l off 1), <- (N.add_mod_idemp_l off' 1) by lia. now rewrite E.
+Qed.
+
